@@ -231,7 +231,7 @@ func domMerge(r *engine.Run) {
 				switch sc.Name() {
 				case "insertNode", "deleteNode", "setRoot":
 				default:
-					if !isNodeInstaller(r, c) && !callsInstaller(r, sc) {
+					if !isNodeInstaller(r, c) && !callsInstaller(r, sc) && !callsNamed(sc, "deleteNode") {
 						return
 					}
 				}
